@@ -234,6 +234,7 @@ def main():
     ap.add_argument("--mode", default="plain")       # plain | faults
     ap.add_argument("--fi", default="")
     ap.add_argument("--max-faults", type=int, default=4)
+    ap.add_argument("--only", type=int, default=0, help="run exactly scenario n (replay); each scenario has its own random stream")
     a = ap.parse_args()
     for k in ("scen", "out", "bita", "dir", "fi"):
         if getattr(a, k):
@@ -259,12 +260,17 @@ def main():
         a.shards_bulk = True
     nrel = nsel = 0
     for n, sc in enumerate(scens, 1):
-        if a.mode == "stdin":
+        # every scenario draws from its own random stream, so that it can be re-run alone (--only n)
+        rnd.seed(a.seed * 7919 + a.shard * 1000003 + n * 97)
+        if a.only:
+            if n != a.only:
+                continue
+        elif a.mode == "stdin":
             # this mode is about a seed arriving on stdin while the output itself is a seed: a sample of the layouts that have both
             if not (sc.get("inplace", True) and sc.get("seeds") and sc.get("prior") and any(x > 0 for s_ in sc["seeds"] for x in s_)):
                 continue
             nrel += 1
-        if not sc.get("bulk"):
+        if not sc.get("bulk") and not a.only:
             if not pick(nrel if a.mode == "stdin" else n, a.every, a.seed):
                 continue
             nsel += 1
